@@ -49,3 +49,20 @@ Theorem node_level_needs_acyclic :
   inducing_node_level g 0 3 [] [4] = true /\ fst (inducing_model g 0 3 [] [4]) = false.
 Proof. exact C06.NodeLevel.node_level_needs_acyclic. Qed.
 Print Assumptions node_level_needs_acyclic.
+
+(* ---- tie (T): the local predicates of /repo, translated on every run into Gen/Gen_Preds.v by translator/predicates.py ----
+   pst g a b = the six marks between a and b.  Statements and the complete case analyses: Tie/Preds_C06.v. *)
+From PG Require Import C03.PState Gen.Gen_Preds Tie.PredsProofs Tie.Preds_C06.
+
+(* _is_collider (with _directed_sub_graph_parents / _bidirected_sub_graph_neighbors inlined, G not a CPDAG) as translated
+   from the source IS the node-level collider test ncoll / into of node_level_exact, on every pair state; and the test of
+   _shortest_valid_path as modelled (nok) is a case distinction on the generated predicate *)
+Theorem repo_pred_is_collider : repo_pred_is_collider_stmt.
+Proof. exact Tie.Preds_C06.repo_pred_is_collider. Qed.
+Print Assumptions repo_pred_is_collider.
+
+Theorem repo_pred_cells_C06 :
+  gen_is_collider_enum = gen_is_collider_cells /\ gen_dir_parent_enum = gen_dir_parent_cells /\
+  gen_bidir_nbr_enum = gen_bidir_nbr_cells.
+Proof. exact Tie.Preds_C06.cells_C06. Qed.
+Print Assumptions repo_pred_cells_C06.
